@@ -652,11 +652,65 @@ theorem restart_resumes (s : State) (now ev : Nat) :
   · rw [restart_eq, (resumeAll_changed now ev _ _).2.1]; rfl
   · rw [restart_eq, (resumeAll_changed now ev _ _).2.2.1]; rfl
 
-/-- the records are resumed in slot order, with their intervals -/
-theorem restart_resumes_all (s : State) (now ev : Nat) :
+/-- the records are resumed in slot order, with their intervals **and under their ids** (the id is
+what the subscriber knows the subscription by), when the records carry distinct ids -/
+theorem restart_resumes_all (s : State) (now ev : Nat)
+    (hnd : ((s.kv.take s.n).map (·.id)).Nodup) (hsome : ∀ r ∈ s.kv.take s.n, r.id ≠ none) :
     (s.restart now ev).subs.map Sub.toRec = s.kv.take s.n := by
-  rw [restart_eq, resumeAll_map now ev _ _ (by simp [State.fresh, State.new]; exact Nat.min_le_left _ _)]
-  simp [State.fresh, State.new]
+  rw [restart_eq, resumeAll_map now ev _ _ (by simp [State.fresh, State.new]; exact Nat.min_le_left _ _) hnd]
+  · simp [State.fresh, State.new]
+  · intro r hr
+    cases hid : r.id with
+    | none => exact absurd hid (hsome r hr)
+    | some j => exact ⟨j, rfl, by simp [State.fresh, State.new]⟩
+
+theorem nodup_map_some : ∀ {l : List Nat}, l.Nodup → (l.map some).Nodup := by
+  intro l
+  induction l with
+  | nil => intro _; simp
+  | cons a l ih =>
+    intro h
+    simp only [List.nodup_cons, List.map_cons] at h ⊢
+    refine ⟨?_, ih h.2⟩
+    intro hm
+    obtain ⟨b, hb, he⟩ := List.mem_map.mp hm
+    have : b = a := by simpa using he
+    subst this
+    exact h.1 hb
+
+/-- what `persist_all` writes has distinct ids (identity invariant of the table) -/
+theorem persist_recs_distinct {s : State} (hu : UID s) :
+    ((s.persist.kv.take s.n).map (·.id)).Nodup ∧ ∀ r ∈ s.persist.kv.take s.n, r.id ≠ none := by
+  have hk : s.persist.kv.take s.n = (s.subs.take s.n).map Sub.toRec := by
+    simp only [State.persist]
+    rw [← List.map_take, List.take_take, Nat.min_self]
+  rw [hk]
+  constructor
+  · rw [List.map_map]
+    have h1 : (s.subs.map (·.id)).Nodup := by
+      have := hu.nodup
+      simp only [State.live, List.map_append] at this
+      exact (List.nodup_append.mp this).1
+    have h2 : ((s.subs.take s.n).map (·.id)).Nodup :=
+      List.Nodup.sublist ((List.take_sublist _ _).map _) h1
+    have : (fun x : Sub => (Sub.toRec x).id) = some ∘ (fun x : Sub => x.id) := rfl
+    show (List.map (fun x : Sub => (Sub.toRec x).id) (s.subs.take s.n)).Nodup
+    rw [this, ← List.map_map]
+    exact nodup_map_some h2
+  · intro r hr
+    obtain ⟨x, _, rfl⟩ := List.mem_map.mp hr
+    simp [Sub.toRec]
+
+/-- **persist, restart**: the subscriptions of the table come back in table order with their peers,
+intervals and ids (before `fix: a resumed subscription keeps its id` they came back under fresh ids
+1, 2, … in slot order — finding `C13-resumed-subscription-ids-reassigned`) -/
+theorem persist_restart_roundtrip {s : State} (hu : UID s) (now ev : Nat) :
+    (s.persist.restart now ev).subs.map Sub.toRec = (s.subs.take s.n).map Sub.toRec := by
+  obtain ⟨h1, h2⟩ := persist_recs_distinct hu
+  have hn : s.persist.n = s.n := rfl
+  rw [restart_resumes_all s.persist now ev (by rw [hn]; exact h1) (by rw [hn]; exact h2), hn]
+  simp only [State.persist]
+  rw [← List.map_take, List.take_take, Nat.min_self]
 
 /-- a resumed subscription reports immediately and its report is a full priming report -/
 theorem resumed_reports_everything (s : State) (now ev t : Nat) (x : Sub)
